@@ -88,4 +88,7 @@ def run(ctx):
     ctx.rule("opc.unknown-arm", n_opc, note="opcode reader arms incl. rejecting catch-all (shared extractor with C01-D2)")
     ctx.analysed.update({"enum_fields": n_enum})
     ctx.assume("the TryFrom<W> impl reached rejects exactly the undeclared values and reports them (decided by C11)")
+    # the opcode that the typed expect_* helpers compare with M::OPCODE must be taken at its full wire width
+    from . import c02_frame
+    c02_frame.run_header_structs(ctx)
     return "other", EXPLANATION, {}
